@@ -446,6 +446,33 @@ def check_exist(prog: Program, res: Result) -> None:
     res.floor(R, 9)
 
 
+def check_no_batch_wide_guard(prog: Program, res: Result) -> None:
+    """A per-frame correction (dividing by the frame's eff_scale, adding the frame's bbox offset) must not be switched on
+    or off by a reduction over the WHOLE batch: `if (eff_scale != 1).all(): x = x / eff_scale` leaves a rescaled frame
+    uncorrected whenever a batch-mate needs no correction.  In the forward methods of the inference layers no `if` test
+    reduces inputs["eff_scale"] (all / any / max / min / sum / mean) - the per-sample arithmetic is unconditional."""
+    R = "C12-indep"
+    n = 0
+    for fi in prog.all_functions():
+        if not fi.module.name.startswith("sleap_nn.inference.") or fi.name != "forward":
+            continue
+        uses = [x for x in walk_function(fi.node) if isinstance(x, ast.Subscript) and astq.const_value(x.slice) == "eff_scale"]
+        if not uses:
+            continue
+        n += 1
+        res.touch(fi)
+        bad = None
+        for t in walk_function(fi.node):
+            if isinstance(t, (ast.If, ast.IfExp, ast.While)):
+                te = astq.expand_at(fi.node, t.test, t if isinstance(t, ast.stmt) else enclosing_stmt(t))
+                if "eff_scale" in norm(te) and any(isinstance(c, ast.Call) and norm(c.func).split(".")[-1] in ("all", "any", "max", "min", "sum", "mean", "item") for c in ast.walk(te)):
+                    bad = t
+        res.ob(R, bad is None, fi.qualname, "the eff_scale correction is applied per frame, unconditionally",
+               f"`{short(bad.test, 60) if bad is not None else ''}` switches the per-frame eff_scale correction by a reduction over the whole batch: a frame's coordinates "
+               "depend on which other frames share its batch", f"{fi.module.relpath}:{getattr(bad, 'lineno', fi.node.lineno)}")
+    res.floor(R, 3)
+
+
 def check(prog: Program, res: Result) -> None:
     check_align(prog, res)
     check_split(prog, res)
@@ -453,6 +480,15 @@ def check(prog: Program, res: Result) -> None:
     check_sort(prog, res)
     check_crop(prog, res)
     check_exist(prog, res)
+    # bottom-up: the per-sample results of the PAF stages keep one entry per frame of the batch, and nothing computed for
+    # one frame is carried into the next
+    # sub-pixel refinement reads the patch of each peak from that peak's own (sample, channel) map
+    from . import c06, c07
+    res.borrow(c07.check_valid, "C12-refine", prog)
+    res.borrow(c06.check_refine, "C12-refine", prog)
+    check_no_batch_wide_guard(prog, res)
+    from . import _batch
+    _batch.check_per_sample_lists(prog, res, "C12-batch", ["sleap_nn.inference.paf_grouping:score_paf_lines_batch", "sleap_nn.inference.paf_grouping:match_candidates_batch", "sleap_nn.inference.paf_grouping:group_instances_batch"], floor=9)
     res.assumptions.append("numerical independence of one sample's output from its batch-mates (network, batched kernels) is not decided")
 
 
